@@ -84,6 +84,9 @@ function act(c,   i) {
   else if (c == "x") deep(5)
 }
 BEGIN {
+  # the very first thing a run does is a number-to-string conversion of the value the previous run converted last
+  # (observe ends with 1/3): anything remembered from that conversion would show here
+  printf "first fmt=%s idx=%s\n", 1 / 3, (1 / 3) in arr
   observe("B0")
   for (i_ = 1; i_ <= length(acts); i_++) { c_ = substr(acts, i_, 1); if (c_ == "/") break; act(c_) }
   if (endm == "exit-in-begin") exit 3
@@ -326,7 +329,9 @@ func run(x *h.Ctx, c Case) string {
 		reused.ResetRand()
 	}
 	restore(dirA)
-	got := execute(reused, c.Probe, dirA, c.ResetVars, true, &cancel, fn)
+	// after ResetVars the special variables are at their defaults by themselves: pinning them through Vars would
+	// re-assign each one (and thereby reset whatever an implementation derives from it) and hide stale state
+	got := execute(reused, c.Probe, dirA, c.ResetVars, !c.ResetVars, &cancel, fn)
 
 	// the same probe on a fresh interpreter (freshly parsed program)
 	var cancel2 context.CancelFunc
@@ -334,7 +339,7 @@ func run(x *h.Ctx, c Case) string {
 	prog2, _ := parser.ParseProgram([]byte(program), &parser.ParserConfig{Funcs: fn2})
 	fresh, _ := interp.New(prog2)
 	restore(dirB)
-	want := execute(fresh, c.Probe, dirB, c.ResetVars, true, &cancel2, fn2)
+	want := execute(fresh, c.Probe, dirB, c.ResetVars, !c.ResetVars, &cancel2, fn2)
 
 	if got != want {
 		return fmt.Sprintf("a reused interpreter (ResetVars=%v) behaves differently from a fresh one on the probe run\n--- history:\n  %s\n--- probe: acts=%q endm=%q inmode=%q outmode=%q chars=%v ctx=%q args=%q stdin=%q specials=%q\n--- reused: status=%d err=%q files=%s\n%s--- fresh:  status=%d err=%q files=%s\n%s",
